@@ -472,6 +472,82 @@ def step (w : World) : Op → World × WalkRes
 
 def run (w : World) (ops : List Op) : World := ops.foldl (fun w op => (step w op).1) w
 
+/-! ## 3c. Histories with time stamps (ghost state: read by no operation)
+
+`touched w op` lists the static spaces whose definitions - as far as dynamic spaces are built from them -
+the operation changes.  `Hist` runs the world and keeps a clock (one tick per operation), the stamp of
+the last operation that touched each static space, and the stamp of the operation during which each
+implementation object was created (implementation numbers are handed out in creation order:
+`nextImpl` before and after the step delimit the ones created by it).
+
+Inheritance is not part of this kernel (`Struct/Mech.lean` has it): an edit of a space that reaches sub
+spaces through inheritance - a derived cells appears / is re-derived / disappears in every sub space that
+does not override it, `SpaceManager.new_cells`, `set_cells_property`, `rename_cells`, `new_ref`,
+`change_ref` walking `_get_subs`, `update_subs` / `UserSpaceImpl.on_inherit` for deletions and base
+changes - is ONE user-level operation `UOp.editInh` that expands into the edit of the space followed by an
+edit of every sub space it reaches, because that is what the code does: each of those sub spaces gets its
+own `clear_subs_rootitems()` (called explicitly in the walks, and by `on_inherit` when a derived member is
+re-derived in place) and / or its own `on_namespace_change()` (a member was added to or removed from its
+namespace). -/
+
+/-- the static spaces an operation touches: the edited space; for a new / deleted child space its parent
+(the parent's namespace changes); for a deletion every space of the deleted tree; for a model-level
+reference every space -/
+def touched (w : World) : Op → List SId
+  | .newSpace path _ _ =>
+    if (findDef w.defs path).isSome then []
+    else match findDef w.defs path.dropLast with
+      | some par => [par.id]
+      | none => []
+  | .setParam path _ _ =>
+    match findDef w.defs path with
+    | some d => [d.id]
+    | none => []
+  | .delSpace path =>
+    match findDef w.defs path with
+    | some d =>
+      (match findDef w.defs d.path.dropLast with
+       | some par => [par.id]
+       | none => []) ++ (w.defs.filter (fun x => d.path.isPrefixOf x.path)).map (·.id)
+    | none => []
+  | .edit k path =>
+    match findDef w.defs path with
+    | some d => if k = .modelRef then d.id :: w.defs.map (·.id) else [d.id]
+    | none => []
+  | _ => []
+
+structure Hist where
+  w : World := {}
+  /-- number of operations performed -/
+  clock : Nat := 0
+  /-- stamp of the last operation that touched the static space (0: never) -/
+  editedAt : SId → Nat := fun _ => 0
+  /-- stamp of the operation during which the implementation object was created (0: not created yet) -/
+  builtAt : Nat → Nat := fun _ => 0
+
+def Hist.step (h : Hist) (op : Op) : Hist :=
+  { w := (ItemSpace.step h.w op).1
+    clock := h.clock + 1
+    editedAt := fun s => if s ∈ touched h.w op then h.clock + 1 else h.editedAt s
+    builtAt := fun i =>
+      if h.w.tbl.nextImpl ≤ i ∧ i < (ItemSpace.step h.w op).1.tbl.nextImpl then h.clock + 1 else h.builtAt i }
+
+def runH (h : Hist) (ops : List Op) : Hist := ops.foldl Hist.step h
+
+/-- user-level operations: those of the kernel, and an edit that reaches sub spaces through inheritance
+(`reach`: the sub spaces in which the edited member is derived from the edited space - those whose
+definitions change - each with the kind of change it sees) -/
+inductive UOp
+  | op (o : Op)
+  | editInh (k : EditKind) (path : Path) (reach : List (EditKind × Path))
+deriving Repr
+
+def UOp.expand : UOp → List Op
+  | .op o => [o]
+  | .editInh k path reach => .edit k path :: reach.map (fun r => .edit r.1 r.2)
+
+def runU (h : Hist) (us : List UOp) : Hist := runH h (us.flatMap UOp.expand)
+
 /-! ## 4. Values inside instances: one store, keyed by the identity of the implementation -/
 
 abbrev CellsId := Nat × String            -- (implementation of the dynamic space, cells name)
@@ -485,6 +561,64 @@ def Store.get (s : Store) (c : CellsId) (k : Key) : Option Val :=
 /-- `cells[k] = v` in the dynamic space with implementation `c.1` -/
 def Store.set (s : Store) (c : CellsId) (k : Key) (v : Val) : Store :=
   ((c, k), v) :: s
+
+/-! ## 4b. The store inside the world: who owns a value
+
+A value (assigned by the user, or computed and cached) belongs to ONE cells object: a cells of a static
+space, or a cells of one dynamic space - identified by the static space's id resp. by the implementation
+of the dynamic space (`CellsImpl.data` hangs on the cells object, the cells objects of a dynamic space
+are created with it and die with it). -/
+
+inductive Owner
+  | static (s : SId)
+  | dyn (impl : Nat)
+deriving DecidableEq, Repr
+
+abbrev VStore := List ((Owner × String × Key) × Val)
+
+def VStore.get (s : VStore) (o : Owner) (c : String) (k : Key) : Option Val :=
+  match s with
+  | [] => none
+  | ((o', c', k'), v) :: rest => if o' = o ∧ c' = c ∧ k' = k then some v else VStore.get rest o c k
+
+structure VWorld where
+  w : World := {}
+  store : VStore := []
+deriving Repr
+
+/-- the object at an address: the static space, or the implementation of the live dynamic space -/
+def ownerAt (w : World) (a : Addr) : Option Owner :=
+  if a.dkey = [] then (findId w.defs a.root).map (fun d => Owner.static d.id)
+  else (findLive w.tbl a).map (fun e => Owner.dyn e.impl)
+
+inductive VOp
+  | op (o : Op)
+  /-- `obj.cells[key] = v` (or: the value computed there is cached) for the object the access chain
+  leads to; the chain creates ItemSpaces on the way, as every access does -/
+  | assign (root : Path) (chain : List ChainSeg) (cells : String) (key : Key) (v : Val)
+deriving Repr
+
+def VWorld.step (vw : VWorld) : VOp → VWorld
+  | .op o => { vw with w := (ItemSpace.step vw.w o).1 }
+  | .assign root chain c k v =>
+    match startAddr vw.w root with
+    | none => vw
+    | some a =>
+      match walk vw.w.defs vw.w.tbl a chain with
+      | (t, .at p) =>
+        match ownerAt { vw.w with tbl := t } p with
+        | some o => { w := { vw.w with tbl := t }, store := ((o, c, k), v) :: vw.store }
+        | none => { vw with w := { vw.w with tbl := t } }
+      | (t, _) => { vw with w := { vw.w with tbl := t } }
+
+def VWorld.run (vw : VWorld) (ops : List VOp) : VWorld := ops.foldl VWorld.step vw
+
+/-- what a read of `cells[key]` of the object at `a` finds in the store (`none`: nothing is held there:
+the formula runs) -/
+def VWorld.valueAt (vw : VWorld) (a : Addr) (c : String) (k : Key) : Option Val :=
+  match ownerAt vw.w a with
+  | some o => vw.store.get o c k
+  | none => none
 
 /-! ## 5. The reference chain of a dynamic space -/
 
